@@ -78,10 +78,8 @@ def deChunked (s : Bytes) : Option (Bytes × Bytes) := deChunkedAux (s.length + 
 
 /-! ## header block -/
 
-/-- position-independent test: does `s` start with CRLFCRLF -/
-def startsCRLFCRLF : Bytes → Bool
-  | 13 :: 10 :: 13 :: 10 :: _ => true
-  | _ => false
+/-- does `s` start with CRLFCRLF -/
+def startsCRLFCRLF (s : Bytes) : Bool := s.take 4 == [13, 10, 13, 10]
 
 /-- split at the first CRLFCRLF: (block including the terminator, rest) -/
 def splitHeadAux : Bytes → List UInt8 → Option (Bytes × Bytes)
@@ -130,29 +128,36 @@ inductive HttpFraming where
   | chunked | length (n : Nat) | untilClose
   deriving Repr, DecidableEq
 
-/-- RFC 7230 3.3.3: how is the body of this response delimited -/
-def httpFraming (head : Bytes) : Option HttpFraming :=
-  let ls := (lines head).drop 1     -- skip the status line
-  match fieldValues sTransferEncoding ls, fieldValues sContentLength ls with
+/-- RFC 7230 3.3.3 on the values of the Transfer-Encoding and Content-Length fields of a response -/
+def framingOf (te cl : List Bytes) : Option HttpFraming :=
+  match te, cl with
   | [v], [] => if lower v = sChunked then some .chunked else none
   | [], [v] => (parseDecNum v).map .length
   | [], [] => some .untilClose
   | _, _ => none
 
+/-- how is the body of this response delimited -/
+def httpFraming (head : Bytes) : Option HttpFraming :=
+  let ls := (lines head).drop 1     -- skip the status line
+  framingOf (fieldValues sTransferEncoding ls) (fieldValues sContentLength ls)
+
+/-- the body under a given framing; nothing may follow a delimited body -/
+def deBody (fr : Option HttpFraming) (head rest : Bytes) : Option (Bytes × Bytes) :=
+  match fr with
+  | none => none
+  | some .chunked => match deChunked rest with
+    | some (body, []) => some (head, body)
+    | _ => none
+  | some (.length n) => if rest.length = n then some (head, rest) else none
+  | some .untilClose => some (head, rest)
+
 /-- an HTTP/1.x response as the client sees it when the server closes after it:
-(head including the blank line, decoded body).  Nothing may follow a delimited body. -/
+(head including the blank line, decoded body). -/
 def deHttp (wire : Bytes) : Option (Bytes × Bytes) :=
   match splitHead wire with
   | none => none
   | some (head, rest) =>
-    if head.take 5 ≠ sHttpSlash then none else
-    match httpFraming head with
-    | none => none
-    | some .chunked => match deChunked rest with
-      | some (body, []) => some (head, body)
-      | _ => none
-    | some (.length n) => if rest.length = n then some (head, rest) else none
-    | some .untilClose => some (head, rest)
+    if head.take 5 ≠ sHttpSlash then none else deBody (httpFraming head) head rest
 
 /-! ## FastCGI records (spec 3.3)
 
